@@ -401,6 +401,13 @@ class History(object):
             self.log.add('op', i=idx, op=kind, ev=ev, fs=_st['fs_log'])
             self.invariants(idx, kind)
         _st['faults'] = None
+        # at the end only (the probe would fill whatever memo the units
+        # table keeps): what the table answers, against definitions
+        bad = libops.units_behaviour_problems(len(ops) % 2)
+        if bad:
+            self.viol('state-altered', 'units-table',
+                      'units-table-answers-against-definitions',
+                      {'problems': bad[:6]}, len(ops))
         return self
 
     # -- operations
